@@ -7,14 +7,17 @@
 //     and enumerated block layouts over timestamps {1..5}; every file is parsed byte-wise by the harness
 //     (format in writer.go's header comment) and opened with the real TSMReader; every lookup of the reader is
 //     compared with the model built from the input.
+//
 //   - tomb: histories of tombstone operations (TSMReader.DeleteRange / BatchDelete commit+rollback / Delete /
 //     reopen) on real files; after the history and after a reopen the reader must hide exactly the recorded
 //     (key, time range) pairs.
 //
-// The tombstone part is split so that a crash engine can reuse it: WriteTombHistory is the history writer
-// (create the file, apply step lists through the real TSMReader, per-step hook), ObserveTombstones /
-// CheckRecovery is the recovery checker (open with the real TSMReader, list what is hidden, compare with the
-// allowed sets).
+//   - crash (engine verif/h/crashfs): the crash clause. WriteTombHistory is the history writer (create the file,
+//     apply step lists through the real TSMReader, per-step hook = BEGIN/ACK markers), run under strace; every
+//     prefix / torn-write / unsynced image of the syscall log is materialized and recovered by a fresh subprocess
+//     with ObserveTombstones (open with the real TSMReader, list what is hidden); the hidden set must be the one
+//     of the acknowledged steps or of those plus the step in flight; then one more tombstone must be recorded and
+//     persist. Reported in the same evidence under the crash_* coverage keys.
 package c08
 
 import (
@@ -2438,7 +2441,7 @@ func judgeCrashHistory(c *vlib.Ctx, pr *crashPrep, obs []*TombObs, notes map[int
 			if clause != "" {
 				cutDesc := fmt.Sprintf("%v: %s %s", im.Desc, im.NextOp, im.NextPath)
 				c.Violation(crashSig(clause, stage, im, cx),
-					fmt.Sprintf("crash history %s (file %s, steps %s), image %s; %d steps acknowledged, in flight: %s — %s", h.Name, specStr(h.File), specStr(h.Steps), cutDesc, len(cx.A), cx.Infl, detail),
+					fmt.Sprintf("crash history %s (steps %s), image %s; %d steps acknowledged, in flight: %s — %s", h.Name, specStr(h.Steps), cutDesc, len(cx.A), cx.Infl, detail),
 					Case{Fam: "crash", Crash: &CrashCase{History: h, Desc: im.Desc, Digest: prefixDigest(pr.log, im.Desc), Cut: cutDesc}})
 			} else if !sampled && !h.LastOnly && c.WantSample() && im.Desc.Kind == crashfs.KindT && cx.Path == "append" && len(cx.B) > 0 {
 				sampled = true
@@ -2774,11 +2777,13 @@ func TestCheck(t *testing.T) {
 	}
 	vlib.Main(t, &vlib.Check{
 		ID: "C08", Level: "exploration",
-		Rule: "READBACK, real TSM files over a 6-key pool (prefix pair, escaped comma, 65535-byte key, 0xFF byte, 1-byte key), logical timestamps {1..5}: (a) focus: 1 key x all 111 layouts (non-empty subset of {1..5} in 1..3 blocks) x {alone x 5 block types, among the 5 other keys x 1 rotating type (quick) / 5 types (thorough)}, writer variant rotating, 1 (quick) / 2 (thorough) passes; (b) shifted: time shifts {-10,-3,1e18} x (3 keys x 111 layouts + 3 key pairs x 16 layout pairs); (c) subsets: every non-empty key subset x every assignment of 2 (quick) / 3 (thorough) fixed layouts x 2 type rotations x 4 writers, thorough also 4 other layouts x 1 writer; writers = in-memory|disk-buffered index x Write|WriteBlock; (d, thorough) the prefix key pair x 111x111 layouts; plus one 65536-byte key. Per file: byte-level parse vs model, then Contains/Seek/KeyAt/Key/KeyCount/Type/Entries/ReadEntries/Read/ReadAt/ReadAll/ContainsValue/BlockIterator/KeyRange/TimeRange/Stats/OverlapsTimeRange/OverlapsKeyRange over 20 probe keys (14 absent neighbours, all ordered pairs for key ranges) and times 0..6 (all sub-ranges + infinite ones). TOMB, 4 (quick) / 8 (thorough) base files of 1-3 keys: tomb1 = every non-empty subset of 3-4 argument keys (incl. absent ones) x {DeleteRange x 25 ranges, BatchDelete+Commit and BatchDelete+Rollback x 6 (quick) / 25 (thorough) ranges} and Delete(keys); tomb2 = every ordered pair of ops over key subsets {singletons of file keys, whole argument set} x 6 ranges (quick) / {singletons of argument keys, pairs of file keys, whole set} x 7 ranges (thorough) x {one batch, two batches, reopen between, first rolled back, second rolled back (thorough only), first as Delete}; tomb3 = every triple of 6 (quick) / 7 (thorough) ranges on one key x {one batch, three batches}; every history is checked on the live reader and after a reopen. RECOVERY (no crash; the two halves the crash engine reuses): 1 two-key file x {no prior tombstone, 1 committed op} x 1 op over 2 keys x 6 ranges: WriteTombHistory then CheckRecovery must say old after the acknowledged steps and new after all. Order: focus, shifted, subsets, tomb, then (thorough) 4-layout subsets and pairs. non-trivial = file with >1 key or >1 block, every tombstone history (deduplicated by spec)",
+		Rule: "READBACK, real TSM files over a 6-key pool (prefix pair, escaped comma, 65535-byte key, 0xFF byte, 1-byte key), logical timestamps {1..5}: (a) focus: 1 key x all 111 layouts (non-empty subset of {1..5} in 1..3 blocks) x {alone x 5 block types, among the 5 other keys x 1 rotating type (quick) / 5 types (thorough)}, writer variant rotating, 1 (quick) / 2 (thorough) passes; (b) shifted: time shifts {-10,-3,1e18} x (3 keys x 111 layouts + 3 key pairs x 16 layout pairs); (c) subsets: every non-empty key subset x every assignment of 2 (quick) / 3 (thorough) fixed layouts x 2 type rotations x 4 writers, thorough also 4 other layouts x 1 writer; writers = in-memory|disk-buffered index x Write|WriteBlock; (d, thorough) the prefix key pair x 111x111 layouts; plus one 65536-byte key. Per file: byte-level parse vs model, then Contains/Seek/KeyAt/Key/KeyCount/Type/Entries/ReadEntries/Read/ReadAt/ReadAll/ContainsValue/BlockIterator/KeyRange/TimeRange/Stats/OverlapsTimeRange/OverlapsKeyRange over 20 probe keys (14 absent neighbours, all ordered pairs for key ranges) and times 0..6 (all sub-ranges + infinite ones). TOMB, 4 (quick) / 8 (thorough) base files of 1-3 keys: tomb1 = every non-empty subset of 3-4 argument keys (incl. absent ones) x {DeleteRange x 25 ranges, BatchDelete+Commit and BatchDelete+Rollback x 6 (quick) / 25 (thorough) ranges} and Delete(keys); tomb2 = every ordered pair of ops over key subsets {singletons of file keys, whole argument set} x 6 ranges (quick) / {singletons of argument keys, pairs of file keys, whole set} x 7 ranges (thorough) x {one batch, two batches, reopen between, first rolled back, second rolled back (thorough only), first as Delete}; tomb3 = every triple of 6 (quick) / 7 (thorough) ranges on one key x {one batch, three batches}; every history is checked on the live reader and after a reopen. RECOVERY (no crash; the two halves the crash engine reuses): 1 two-key file x {no prior tombstone, 1 committed op} x 1 op over 2 keys x 6 ranges: WriteTombHistory then CheckRecovery must say old after the acknowledged steps and new after all. CRASH (the crash clause; engine crashfs; counted under the crash_* coverage keys and the crash:* outcomes; runs first): tombstone histories performed by a writer subprocess on the real TSMReader under strace with BEGIN/ACK markers (op 0 = TSM file written, op i+1 = step i; every step is at most one tombstone commit: BatchDelete+Commit of 1-2 ops, DeleteRange of one op, Delete of one op, BatchDelete+Rollback, reopen); quick: 3 hand-picked histories of 4-5 steps on files of 1, 2 and 3 keys (first tombstone = create path, later ones = v4 append path through the temp copy, rollback, reopen), every cut; thorough: these plus a history on the file with the 65535-byte key plus the enumerated family on the two-key file: A in {no tombstone, 4 committed ops (each key x {[1,2], whole key})} x B in {commit of one op: each key x 6 ranges, commit over both keys, Delete of each key} = 75 recordings (with A: only the cuts inside or after B). Per history every prefix of the syscall-level event list (P), every torn length 1..n-1 of the write in flight (T; all lengths up to 4096 bytes), and for *.tombstone/*.tmp files the images with un-fsynced data dropped or its last write torn (U); directory operations in program order; only images cut after the TSM file was acknowledged; images deduplicated by (content, acknowledged steps, step in flight). One evaluation = one (image, acknowledgement context) recovered in a fresh subprocess: NewTSMReader on the image, ReadAll of every written key -> set of hidden points, Tombstoner.Walk; then leftover *.tmp files removed (as Engine.Open does), one more DeleteRange of a still visible point through the real reader, close, reopen, hidden points again. Crash oracle: the file opens; nothing unwritten is returned; hidden points = those of the acknowledged steps (old) or of those plus the step in flight (new), exactly the acknowledged ones when nothing is in flight; after the further tombstone: the first view plus that point. Order: crash, focus, shifted, subsets, tomb, then (thorough) 4-layout subsets and pairs. non-trivial = file with >1 key or >1 block, every tombstone history (deduplicated by spec), every crash image that hides a point or has a recording step in flight",
 		Assumptions: []string{
 			"block payload codecs (tsm1.Values.Encode / DecodeBlock) are used by the byte-level parse to decode blocks; they are the subject of other properties",
 			"with tombstones the statement fixes only what is hidden: Contains/KeyCount for a key whose points are all hidden by several partial ranges, and Entries for fully hidden blocks, are accepted either way; KeyRange/TimeRange/Stats are checked only on files without tombstones",
-			"the crash clause (tombstone commit under crash) is decided by a separate engine using WriteTombHistory / CheckRecovery of this package",
+			"crash family: ordered-metadata crash model (creates/renames/unlinks persist in program order; data of *.tombstone/*.tmp files may be lost back to the last fsync = U images; a write in flight may persist any byte prefix = T images); a crash while the TSM file itself is being written is not a crash during a tombstone write and is skipped",
+			"crash family: before the further tombstone the recovery removes leftover *.tmp files, as tsm1.Engine.Open (cleanup) does before loading the file store; the TSMReader alone would refuse the next delete because the temp file is created with O_EXCL",
+			"crash family: every step of a crash history is at most one tombstone commit, so the old/new alternative is per commit; the visible tombstone set is observed as the set of written points that ReadAll no longer returns",
 		},
 		QuickBudgetS: 40, ThoroughBudgetS: 780,
 		// one case at a time per worker: no use for more Ps; the writers allocate 3-4 MiB of buffers per file,
